@@ -956,6 +956,13 @@ def ctx_rules(ctx: Ctx) -> None:
         else:
             ctx.R.undecided("CTX-3", "no `inner_mgr is None` test found in the loop")
     pr_if = [s for s in loop.body if isinstance(s, ast.If) and norm(s.test) in (f"{rvar} == PRUNE", f"{rvar} == ()", f"{rvar} is PRUNE", f"PRUNE == {rvar}")]
+    if len(pr_if) == 1 and " is " in norm(pr_if[0].test):
+        # identity with PRUNE recognises a hook's literal `()` only while PRUNE *is* the empty-tuple literal
+        cm_ = ctx.P.mod("_customization")
+        pd = cm_.toplevel_assign("PRUNE")
+        if pd is None or not (isinstance(pd.value, ast.Tuple) and not pd.value.elts):
+            ctx.R.fail("CTX-3", mod, pr_if[0], f"`{norm(pr_if[0].test)}` compares by identity, and PRUNE is defined as `{norm(pd.value) if pd is not None else '?'}`: a hook that returns the documented equivalent, "
+                       "a literal empty tuple, is no longer recognised -- `()` becomes context.obj and the context is not hidden", construct="PRUNE recognised by identity")
     if len(pr_if) == 1:
         b = [norm(x) for x in pr_if[0].body]
         if f"{cvar}.hide = True" in b and leaves(pr_if[0].body[-1]) and b.index(f"{cvar}.hide = True") < len(b) - 1:
